@@ -136,7 +136,7 @@ pub fn gen09(ctx: &Ctx) {
         vec![], vec![b"close"], vec![b"Close"], vec![b"CLOSE"], vec![b"keep-alive, close"], vec![b"close, keep-alive"], vec![b"close "], vec![b" close"], vec![b"\tclose\t"],
         vec![b"keep-alive"], vec![b"closed"], vec![b"x-close"], vec![b"clos"], vec![b"keep-alive", b"close"], vec![b"close", b"keep-alive"], vec![b"upgrade,\tClose ,x"], vec![b"\"close\""], vec![b""],
     ];
-    let paths = ["/none", "/close", "/closer", "/closeka", "/err", "/errk/wb", "/errk/to", "/errk/intr", "/errk/pipe", "/errafter", "/all", "/first", "/k/2", "/reader/10", "/nosuch"];
+    let paths = ["/none", "/close", "/closer", "/closeka", "/closerep", "/err", "/errk/wb", "/errk/to", "/errk/intr", "/errk/pipe", "/errafter", "/all", "/first", "/k/2", "/reader/10", "/nosuch"];
     let hooks: [Option<&[u8]>; 3] = [None, Some(b"answer"), Some(b"answer-close")];
     let reps = if ctx.thorough { 6 } else { 1 };
     for _ in 0..reps {
@@ -165,6 +165,18 @@ pub fn gen09(ctx: &Ctx) {
             steps.extend(exchange(&mut rng, &probe(), false));
             finish_case(&mut out, 4096, steps, "malformed-head");
         }
+        // a head that fills the limit without ending (431): the connection is closed at once, whatever follows in the socket
+        // (nothing, exactly 1 KiB, 2 KiB, or a few bytes)
+        for extra in [0usize, 7, 1024, 2048, 1030] {
+            let mut h = b"GET /none HTTP/1.1\r\nX: ".to_vec();
+            while h.len() < 4096 + extra { h.push(b'p'); }
+            let steps0 = vec![format!("D{}", hex(&h)), "R".to_string()];
+            // without anything further from the client: the server must have closed by itself
+            finish_case(&mut out, 4096, steps0.clone(), "head-too-large");
+            let mut steps = steps0;
+            steps.extend(exchange(&mut rng, &probe(), false));
+            finish_case(&mut out, 4096, steps, "head-too-large");
+        }
     }
     out.finish();
 }
@@ -177,15 +189,20 @@ pub fn gen05(ctx: &Ctx) {
                 Transfer-Encoding fields {absent, chunked, CHUNKED, 'chunked ', HT chunked, 'gzip, chunked', 'chunked, gzip', gzip, split over two lines both ways, empty}, both field orders, \
                 body sent as a chunked encoding of 'hello' or as 5 raw bytes, head and body in the same or separate segments; then a probe request. non-trivial = at least one request answered".into();
     let cls: Vec<Vec<&[u8]>> = vec![vec![], vec![b"5"], vec![b"+5"], vec![b"5x"], vec![b"5, 5"], vec![b"5", b"5"], vec![b"5", b"6"], vec![b"18446744073709551616"],
-        vec![b"99999999999999999999"], vec![b" 5\t"], vec![b"05"], vec![b"0"], vec![b""], vec![b"-5"], vec![b"5", b"x"]];
+        vec![b"99999999999999999999"], vec![b" 5\t"], vec![b"05"], vec![b"0"], vec![b""], vec![b"-5"], vec![b"5", b"x"], vec![b"\x0c5"], vec![b"\x0b5"], vec![b"5\x0c"]];
     let tes: Vec<Vec<&[u8]>> = vec![vec![], vec![b"chunked"], vec![b"CHUNKED"], vec![b"chunked "], vec![b"\tchunked"], vec![b"gzip, chunked"], vec![b"chunked, gzip"], vec![b"gzip"],
-        vec![b"gzip", b"chunked"], vec![b"chunked", b"gzip"], vec![b""], vec![b"chunked, chunked"], vec![b"x-chunked"]];
+        vec![b"gzip", b"chunked"], vec![b"chunked", b"gzip"], vec![b""], vec![b"chunked, chunked"], vec![b"x-chunked"], vec![b"\x0cchunked"]];
     let reps = if ctx.thorough { 4 } else { 1 };
     for _ in 0..reps {
         for cl in &cls { for te in &tes { for order in 0..2 { for bodykind in 0..2 {
             let mut f1: Vec<(String, Vec<u8>)> = cl.iter().map(|v| (rng.pick(&["Content-Length", "content-length", "CONTENT-LENGTH"]).to_string(), v.to_vec())).collect();
             let f2: Vec<(String, Vec<u8>)> = te.iter().map(|v| (rng.pick(&["Transfer-Encoding", "transfer-encoding"]).to_string(), v.to_vec())).collect();
-            let fields = if order == 0 { f1.extend(f2); f1 } else { let mut f = f2; f.extend(f1); f };
+            let mut fields = if order == 0 { f1.extend(f2); f1 } else { let mut f = f2; f.extend(f1); f };
+            // one request in five is answered by the pre-routing hook: the framing decision (incl. the 400 for an unframeable
+            // request) does not depend on who answers
+            // (only where the body sent is a well-formed instance of the announced framing: a malformed body that nobody reads is
+            // finding F21, property C07)
+            if rng.chance(1, 5) && (te.is_empty() || bodykind == 0) { fields.push(("x-hook".into(), b"answer".to_vec())); }
             // no framing field at all (or an explicit zero length): the request has no body, and a lock-step
             // client sends nothing before the response
             let bodyless = (cl.is_empty() && te.is_empty()) || (te.is_empty() && cl.iter().all(|v| *v == b"0"));
@@ -239,6 +256,20 @@ pub fn gen07(ctx: &Ctx) {
             steps.extend(exchange(&mut rng, &r, g));
         }
         finish_case(&mut out, 4096, steps, &format!("lockstep/{class}"));
+    }
+    // a head limit above the body reader's 4 KiB buffer, and a body of 5..13 KB that arrives in one segment with the head:
+    // the bytes read with the head (the leftover) are consumed over several reads
+    for _ in 0..(if ctx.thorough { 60 } else { 8 }) {
+        let blen = rng.range(5000, 13000) as usize;
+        let payload: Vec<u8> = (0..blen).map(|i| b'a' + ((i * 7 + i / 251) % 26) as u8).collect();
+        let chunkedb = rng.chance(1, 2);
+        let (fields, body) = if chunkedb { (vec![("Transfer-Encoding".to_string(), b"chunked".to_vec())], chunked(&payload, &mut rng)) }
+                             else { (vec![("Content-Length".to_string(), blen.to_string().into_bytes())], payload.clone()) };
+        let r = Req { method: "POST", path: rng.pick(&["/all", "/k/9000", "/first"]).to_string(), fields, body };
+        let mut all = r.head(); all.extend(&r.body);
+        let mut steps = vec![format!("D{}", hex(&all)), "R".to_string()];
+        steps.extend(exchange(&mut rng, &probe(), false));
+        finish_case(&mut out, 16384, steps, if chunkedb { "big-leftover/chunked" } else { "big-leftover/fixed" });
     }
     // malformed or truncated bodies: the handler either reads the body (error -> close) or ignores it
     let mb = if ctx.thorough { 400 } else { 60 };
